@@ -16,7 +16,8 @@ trap restore EXIT
 if ! git -C /repo apply "$PATCH"; then echo "patch does not apply"; exit 2; fi
 for id in "$@"; do
   mkdir -p "$OUT/evidence" "$OUT/replays"
-  VERIF_DIR="$OUT" /verif/run.sh "$id" "$TIER" > "$OUT/$id.out" 2>&1
+  # (binaries built from the changed tree go to a scratch directory, never to /verif/.build)
+  VERIF_DIR="$OUT" VERIF_BUILD="$OUT/build" /verif/run.sh "$id" "$TIER" > "$OUT/$id.out" 2>&1
   rc=$?
   echo "== $id $TIER exit=$rc"
   grep -E "^(VIOLATION|KNOWN-FINDING|INCONCLUSIVE)" "$OUT/$id.out" | cut -c1-260 | head -${SEEDTEST_LINES:-8}
